@@ -37,7 +37,8 @@ def same(a, b, path="obj", seen=None, strict_order=True):
             return f"{path}: dtype {a.dtype} vs {b.dtype}"
         if a.shape != b.shape:
             return f"{path}: shape {a.shape} vs {b.shape}"
-        if a.dtype != object and a.ndim > 1 and a.size > 1:
+        if a.dtype != object and a.ndim > 1 and a.size > 1 and (a.flags["F_CONTIGUOUS"] or a.flags["C_CONTIGUOUS"]):
+            # "the same C or Fortran memory layout": a strided view has neither, and nothing is promised about it
             if a.flags["F_CONTIGUOUS"] != b.flags["F_CONTIGUOUS"] or a.flags["C_CONTIGUOUS"] != b.flags["C_CONTIGUOUS"]:
                 return f"{path}: memory layout C={a.flags['C_CONTIGUOUS']},F={a.flags['F_CONTIGUOUS']} vs C={b.flags['C_CONTIGUOUS']},F={b.flags['F_CONTIGUOUS']}"
         if isinstance(a, np.ma.MaskedArray):
